@@ -27,6 +27,7 @@ def expand(o):
     for k in ("ks", "kinds", "nodes"):
         o["plan"][k] = sorted(o["plan"][k])
     o["marks"] = sorted(o.get("marks", []))
+    o["pcs"] = sorted(o.get("pcs", []))
     return o
 
 
@@ -115,6 +116,7 @@ def perform(o, family, form=0, quiet=False):
     obs = dict(o)
     obs.update(exc=exc, src=src, log=log, postpar=postpar, postch=postch, iterable_form=form % 6)
     obs.pop("marks", None)
+    obs.pop("pcs", None)
     return obs
 
 
@@ -166,9 +168,12 @@ def replay_chunk(args):
 
     import zlib
 
+    pcs = set()
+    out["pcs"] = pcs
     for line in lines:
         vec = json.loads(json.loads(line))
         pred = expand(vec["o"])
+        pcs.update(pred["pcs"])
         form0 = zlib.crc32(line.encode()) % 6
         flags = {k: vec[k] for k in ("c01", "c02", "c03", "c03a", "c16")}
         observed = {}
